@@ -145,6 +145,15 @@ def gen_data(r, R, C, dtype, mwm, fill):
     return d, kind, const, has_fill
 
 
+LAYOUTS = ["strided_cols", "strided_rows", "window", "fortran", "transposed", "negative"]
+
+
+def gen_layout(r, p=0.5):
+    """Memory layout of an input array: the same values as a strided view into a larger array (whose other elements are
+    far outside the data range), Fortran-ordered, transposed-back, or with negative strides."""
+    return r.choice(LAYOUTS) if r.random() < p else "c"
+
+
 def gen_params(r):
     if r.random() < 0.55:
         return dict(DEFAULT_PARAMS)
@@ -199,7 +208,8 @@ def gen_fornav_case(r, big=False):
     p = gen_params(r)
     return {"cols": hex2(cols), "rows": hex2(rows), "data": hex2(data), "dtype": dtype, "rps": gen_rps(r, R),
             "params": p, "mwm": mwm, "grid": [h, w], "fill": H(fill), "kind": kind, "const": const,
-            "has_fill": has_fill, "geo": geo, "ws_wsm": ws_wsm(p)}
+            "has_fill": has_fill, "geo": geo, "ws_wsm": ws_wsm(p), "layout": gen_layout(r, 0.55),
+            "geo_layout": gen_layout(r, 0.2)}
 
 
 def lonlat_of(area, cols, rows):
@@ -239,6 +249,7 @@ def gen_scene(r, big=False, dropped=False, many_chunks=False, force_mwm=None):
                "legacy": (not big) and fill != fill and r.random() < 0.6, "want_sub_fp": not big, "want_fp": True,
                "kind": kind, "const": const, "has_fill": has_fill, "grid": [h, w]})
     sc["ws_wsm"] = ws_wsm(sc["params"])
+    sc["layout"], sc["geo_layout"] = gen_layout(r, 0.5), gen_layout(r, 0.3)
     return sc
 
 
@@ -270,7 +281,8 @@ def gen_ll2cr_case(r, big=False):
             else:
                 lons[a, b], lats[a, b] = r.uniform(-180, 180), r.uniform(-89, 89)
     c = dict(area)
-    c.update({"lons": hex2(lons), "lats": hex2(lats), "fill": H(r.choice([NAN, NAN, -999.0, 1e30])), "malformed": mal})
+    c.update({"lons": hex2(lons), "lats": hex2(lats), "fill": H(r.choice([NAN, NAN, -999.0, 1e30])), "malformed": mal,
+              "geo_layout": gen_layout(r, 0.4)})
     return c
 
 
@@ -369,6 +381,14 @@ def judge_ll2cr(case, o):
         maybe = -1 - tol <= oc[k] <= w + 1 + tol and -1 - tol <= orr[k] <= h + 1 + tol
         lo += inside
         hi += maybe
+    lr_ = o.get("layout_run")
+    if lr_ is not None and "error" not in lr_:
+        c2, r2 = arr(lr_["cols"]), arr(lr_["rows"])
+        same = ((c2 == cols) | ((c2 != c2) & (cols != cols))) & ((r2 == rows) | ((r2 != r2) & (rows != rows)))
+        if lr_["n"] != o["n"] or not same.all():
+            k = int(np.nonzero(~same)[0][0]) if not same.all() else -1
+            fails.insert(0, ("C08.ll2cr.layout", "lon/lat arrays in memory layout %r: ll2cr gives count %d and col,row %r,%r at pixel %d; the C-contiguous copy gives %d and %r,%r"
+                             % (case.get("geo_layout"), lr_["n"], c2[k], r2[k], k, o["n"], cols[k], rows[k])))
     if not lo <= o["n"] <= hi:
         fails.append(("C08.ll2cr.count" + sfx, "ll2cr counts %d points in grid, the area's own coordinates put %d..%d within one cell" % (o["n"], lo, hi)))
     return fails[:3]
@@ -401,6 +421,27 @@ def judge_fornav(case, o, pfx="C08.fornav"):
     tab = cell_table(o.get("fp") or [], data, case["dtype"], data.shape)
     one, ws = o["oneshot"], o["ws"]
     smin = smin_eff(p)
+    # memory layout of the inputs must not matter: same values -> same grid as the run on a C-contiguous copy
+    for alt, lay, what in (("oneshot_c", case.get("layout"), "data"), ("oneshot_geo", case.get("geo_layout"), "cols/rows")):
+        ref = o.get(alt)
+        if ref is None:
+            continue
+        a_, b_ = (one, ref) if alt == "oneshot_c" else (ref, one)      # a_: run with the layout, b_: contiguous run
+        if "error" in a_ and "error" not in b_ and what == "cols/rows" and a_["error"] in ("ValueError", "TypeError"):
+            continue                                                     # non-contiguous geolocation is rejected cleanly
+        if ("error" in a_) != ("error" in b_):
+            return [(pfx + ".layout", "%s array in memory layout %r: fornav gives %s, the C-contiguous copy gives %s"
+                     % (what, lay, a_.get("error", "a grid"), b_.get("error", "a grid")))], tab
+        if "error" in a_:
+            continue
+        ga, gb = arr(a_["out"], (h, w)), arr(b_["out"], (h, w))
+        same = (ga == gb) | ((ga != ga) & (gb != gb))
+        if not same.all():
+            rr, cc = [int(v[0]) for v in np.nonzero(~same)]
+            vals = sorted(set(f32(v) for v in data.ravel() if v == v))
+            return [(pfx + ".layout", "%s array handed over in memory layout %r (same values): cell (%d,%d) = %r, the run on a C-contiguous copy gives %r "
+                     "(%d cells differ; valid inputs lie in [%r, %r])" % (what, lay, rr, cc, ga[rr, cc], gb[rr, cc], int((~same).sum()),
+                                                                        vals[0] if vals else None, vals[-1] if vals else None))], tab
     if "error" in one:
         if one["error"] == "RuntimeError" and not tab:
             return fails, tab
@@ -479,9 +520,19 @@ def judge_scene(case, o):
     one = o["fornav"]["oneshot"]
     dk = o["dask"]
     if "error" in dk:
-        fails.append(("C08.dask.error", "DaskEWAResampler raised %s: %s" % (dk["error"], dk.get("msg"))))
+        lay = o.get("dask_c") is not None and "error" not in o["dask_c"]
+        fails.append(("C08.dask.layout" if lay else "C08.dask.error", "DaskEWAResampler raised %s: %s%s" % (dk["error"], dk.get("msg"),
+                      " (data layout %r, lon/lat layout %r; C-contiguous copies work)" % (case.get("layout"), case.get("geo_layout")) if lay else "")))
         return fails, info
     dout = arr(dk["out"], (h, w))
+    dkc = o.get("dask_c")
+    if dkc is not None and "error" not in dkc:
+        dc = arr(dkc["out"], (h, w))
+        same = (dout == dc) | ((dout != dout) & (dc != dc))
+        if not same.all():
+            rr, cc = [int(v[0]) for v in np.nonzero(~same)]
+            return [("C08.dask.layout", "data in memory layout %r, lon/lat in %r (same values): DaskEWAResampler cell (%d,%d) = %r, with C-contiguous copies %r (%d cells differ)"
+                     % (case.get("layout"), case.get("geo_layout"), rr, cc, dout[rr, cc], dc[rr, cc], int((~same).sum())))] + fails, info
     oout = arr(one["out"], (h, w)) if "error" not in one else np.full((h, w), fill)
     if o.get("legacy") and "out" in o["legacy"] and "error" not in one:
         lg = arr(o["legacy"]["out"], (h, w))
@@ -741,7 +792,7 @@ def run(ctx):
     ctx.rule = ("PRNG cases from VERIF_SEED: (a) ll2cr on 9 CRS families x random areas (dyadic / general pixel sizes, flipped y 30%, flipped x 10%) with "
                 "lattice swaths, +-1-cell margin seekers and a malformed stream (NaN, 1e30, lat 95, inf, far points); (b) fornav on synthetic col/row "
                 "fields (spacing 0.45..3 cells, rotation, curvature, NaN geolocation), float32/float64 data (smooth, noise, constant, integer, wide; "
-                "NaN / fill pixels), rows_per_scan dividing the rows, weight parameters, average and maximum-weight mode; (c) scenes = area + lon/lat "
+                "NaN / fill pixels; handed over C-contiguous or as strided views into larger arrays, Fortran-ordered, transposed-back, negative strides), rows_per_scan dividing the rows, weight parameters, average and maximum-weight mode; (c) scenes = area + lon/lat "
                 "swath + data run one-shot and through DaskEWAResampler for scan-aligned input chunkings and random output chunk partitions (plus the "
                 "legacy resampler), incl. the known-finding scene and the flipped design-round area; (d) write_grid_image_single on explicit arrays "
                 "(float and int8 grids). A case is non-trivial when at least one grid cell receives >= 2 valid contributions (fornav/scene), at least "
@@ -777,6 +828,8 @@ def run(ctx):
             ctx.count("ll2cr:flipped")
         if case.get("malformed"):
             ctx.count("ll2cr:malformed")
+        if case.get("geo_layout", "c") != "c":
+            ctx.count("ll2cr:layout_" + ("rejected_" + o["layout_run"]["error"] if "error" in (o.get("layout_run") or {}) else "accepted"))
         for key, what in fails:
             ctx.add_failure(key, what, {"oracle": "ll2cr", "case": case})
         if "error" not in o:
@@ -799,6 +852,9 @@ def run(ctx):
             ctx.count("fornav:fill_pixels")
         if case["geo"] != "plain":
             ctx.count("fornav:" + case["geo"])
+        ctx.count("fornav:data_layout_" + case.get("layout", "c"))
+        if case.get("geo_layout", "c") != "c":
+            ctx.count("fornav:geoloc_layout_" + ("rejected" if "error" in (o.get("oneshot_geo") or {}) else "accepted"))
         if tab and case["params"]["weight_sum_min"] == -1.0 and min(wt for l in tab.values() for _, wt in l) < smin_eff(case["params"]):
             ctx.count("H_thresh:default_threshold_table_weight_below_weight_min")
         for key, what in fails:
@@ -822,6 +878,8 @@ def run(ctx):
         ctx.count("scene:out_blocks=%d" % (len(case["out_chunks"][0]) * len(case["out_chunks"][1])))
         if ok and any(o["placeholders"]):
             ctx.count("scene:placeholder_chunk")
+        ctx.count("scene:data_layout_" + case.get("layout", "c"))
+        ctx.count("scene:lonlat_layout_" + case.get("geo_layout", "c"))
         if info.get("dropped_reach"):
             ctx.count("scene:dropped_chunk_reaches_grid")
         if info.get("edge_cells"):
